@@ -50,7 +50,7 @@ class Inp:
 def add_fact(facts, fact):
     """Add a guard fact; facts over widened / very deep terms are dropped (widening)."""
     t = fact[0]
-    if term_depth(t) > 7 or "widened" in repr(t):
+    if term_depth(t) > 11 or "widened" in repr(t):
         return facts
     if len(facts) > 40:
         return facts
@@ -58,7 +58,7 @@ def add_fact(facts, fact):
 
 
 class State:
-    __slots__ = ("frames", "inps", "mem", "facts", "trace", "flags")
+    __slots__ = ("frames", "inps", "mem", "facts", "trace", "flags", "last", "seg")
 
     def __init__(self):
         self.frames = {}
@@ -67,6 +67,8 @@ class State:
         self.facts = frozenset()
         self.trace = ()
         self.flags = frozenset()
+        self.last = ("ENTRY", None, ("E",))   # last protocol node: (node, result, cursor tag before it)
+        self.seg = ()                          # effects since that node
 
     def copy(self):
         s = State()
@@ -76,18 +78,28 @@ class State:
         s.facts = self.facts
         s.trace = self.trace
         s.flags = self.flags
+        s.last = self.last
+        s.seg = self.seg
         return s
 
     def key(self, fid):
         fr = self.frames[fid]
         return (tuple(sorted(fr.items())), tuple(i.key() for i in self.inps), tuple(sorted(self.mem.items())),
-                self.facts, self.flags)
+                self.facts, self.flags, self.last, self.seg)
 
     def inp(self, n=None):
         return self.inps[-1 if n is None else n]
 
+    SEG_KINDS = {"emit": 0, "add_alt": 0, "add_alt_err": 0, "memwrite": 2, "memo": 1, "rewind_input": 0}
+
     def ev(self, *e):
         self.trace = self.trace + (e,)
+        k = e[0]
+        if k in self.SEG_KINDS:
+            n = self.SEG_KINDS[k]
+            item = (k,) + tuple(str(x) for x in e[1:1 + n])
+            if self.seg.count(item) < 2:     # bounded: a loop cannot grow the segment without limit
+                self.seg = self.seg + (item,)
 
 
 # ------------------------------------------------------------------ helpers on values
@@ -191,6 +203,40 @@ def norm_cmp(op, a, b):
     return ((op, a, b), True)
 
 
+def _is_zero_term(t):
+    return isinstance(t, tuple) and t and t[0] == "const" and str(t[1]).split("_")[0] == "0"
+
+
+def canon_atom(t, pol):
+    """Canonical (term, polarity) of a guard fact for contradiction checks: unsigned `0 < x` == !(x == 0)."""
+    if isinstance(t, tuple) and t:
+        if t[0] == "Lt" and _is_zero_term(t[1]):
+            return (("Eq0", t[2]), not pol)
+        if t[0] == "Eq" and _is_zero_term(t[1]):
+            return (("Eq0", t[2]), pol)
+        if t[0] == "Eq" and _is_zero_term(t[2]):
+            return (("Eq0", t[1]), pol)
+    return (t, pol)
+
+
+def contradicts(facts, t, pol):
+    """Is the fact (t, pol) inconsistent with the known facts?"""
+    a, ap = canon_atom(t, pol)
+    for (ft, fp) in facts:
+        b, bp = canon_atom(ft, fp)
+        if a == b and ap != bp:
+            return True
+        # a<b and b<a / a<b and a==b cannot both hold
+        if isinstance(a, tuple) and isinstance(b, tuple) and a and b and ap and bp:
+            if a[0] == "Lt" and b[0] == "Lt" and a[1] == b[2] and a[2] == b[1]:
+                return True
+            if a[0] == "Lt" and b[0] == "Eq" and {a[1], a[2]} == {b[1], b[2]}:
+                return True
+            if a[0] == "Eq" and b[0] == "Lt" and {a[1], a[2]} == {b[1], b[2]}:
+                return True
+    return False
+
+
 def mk_struct(d):
     return ("struct", tuple(sorted(d.items())))
 
@@ -251,6 +297,7 @@ class Interp:
         self.cur_root = None
         self.unknown_callees = {}
         self.spec = None
+        self.edges = {}      # root uname -> set of edges
         self.reset_logs()
 
     def reset_logs(self):
@@ -287,6 +334,7 @@ class Interp:
         exits = []
         seen = set()
         for s, rv in outs:
+            self.record_edge(s, ("EXIT", self.classify(rv)), s.inp(0).pos, s.inp(0))
             e = Exit()
             e.cls = self.classify(rv)
             inp = s.inp(0)
@@ -307,6 +355,29 @@ class Interp:
             exits.append(e)
         return exits
 
+    def record_edge(self, st, dst, pos, inp=None, inner=False):
+        """Edge of the body's abstract automaton: (last node, its result) --facts/effects--> dst at cursor tag pos."""
+        node, res, pb = st.last
+        descs = set()
+        if pos == ("E",):
+            descs.add("E")
+        if pos[0] == "P":
+            descs.add(pos[1])
+        if pos == pb and node != "ENTRY":
+            descs.add("before")
+        if pos[0] == "S":
+            descs.add("after(%s)" % (pos[1][0],))
+        if pos[0] == "T":
+            descs.add("read")
+        if pos[0] == "X":
+            descs.add("poisoned")
+        if pos[0] == "W":
+            descs.add("written")
+        if inner:
+            descs = {"inner:" + d for d in descs}
+        edge = (node, res, dst, frozenset(descs), st.seg, st.facts)
+        self.edges.setdefault(self.cur_root["uname"], set()).add(edge)
+
     def initial_arg(self, body, i):
         l = body["locals"][i]
         ty = l["ty"]
@@ -320,7 +391,7 @@ class Interp:
             return ("ckpt", ("P", name), frozenset(), name)
         if ty.startswith("&input::Cursor<") or ty.startswith("input::Cursor<"):
             return ("cursor", ("P", name))
-        return ("sym", ("param", name))
+        return ("sym", ("param", "self" if name == "self" else "arg%d" % i))
 
     @staticmethod
     def classify(rv):
@@ -586,7 +657,7 @@ class Frame:
                 if ok[0] == lv[1] and ok[1][:len(lv[2])] == lv[2] and ok != key:
                     del st.mem[ok]
             st.mem[key] = val
-            st.ev("memwrite", self.memname(lv), line)
+            st.ev("memwrite", self.memname(lv), describe(val), line)
             return
         if k == "slot":
             self.write_slot(lv[1], val, line)
@@ -707,6 +778,8 @@ class Frame:
             if r["op"] == "Not":
                 if a[0] == "bool":
                     return ("bool", not a[1])
+                if a[0] == "const" and str(a[2]).split("_")[0] == "0":
+                    return ("const", a[1], "MAX")
                 t = term_of(a)
                 if t[0] == "not":
                     return ("sym", t[1])
@@ -886,6 +959,8 @@ class Frame:
                     fact_pol = branch_true if pol else (not branch_true)
                     if known is not None and known != fact_pol:
                         continue
+                    if contradicts(self.st.facts, t0, fact_pol):
+                        continue
                     s2 = self.st.copy()
                     s2.facts = add_fact(s2.facts, (t0, fact_pol))
                     s2.ev("branch", repr_term(t0), fact_pol, line)
@@ -969,7 +1044,7 @@ class Frame:
         return res
 
 
-def term_depth(t, lim=8):
+def term_depth(t, lim=14):
     if not isinstance(t, tuple) or lim <= 0:
         return 0 if not isinstance(t, tuple) else 99
     d = 0
@@ -979,9 +1054,16 @@ def term_depth(t, lim=8):
     return d + 1
 
 
+def _arith_depth(t, d=0):
+    if isinstance(t, tuple) and t and t[0] in ("Add", "Sub", "Mul", "AddWithOverflow", "SubWithOverflow"):
+        return 1 + max([_arith_depth(x) for x in t[1:] if isinstance(x, tuple)] or [0])
+    return 0
+
+
 def cap_val(v):
-    """Widening: symbolic terms deeper than 6 are collapsed so that loops reach a fixpoint."""
-    if isinstance(v, tuple) and v and v[0] == "sym" and term_depth(v[1]) > 6:
+    """Widening: deep symbolic terms (and arithmetic chains that grow round a loop) are collapsed so that
+    loops reach a fixpoint."""
+    if isinstance(v, tuple) and v and v[0] == "sym" and (term_depth(v[1]) > 9 or _arith_depth(v[1]) > 2):
         return ("sym", ("widened",))
     return v
 
@@ -1005,6 +1087,12 @@ def repr_term(t):
         return "(%s as %s)" % (repr_term(t[1]), t[2])
     if t[0] == "discr":
         return "discr(%s)" % repr_term(t[1])
+    if t[0] == "call" and len(t) >= 3 and isinstance(t[2], tuple):
+        return "%s(%s)" % (t[1], ", ".join(repr_term(x) for x in t[2]))
+    if t[0] == "abs":
+        return "_"
+    if not isinstance(t[0], str):
+        return "(%s)" % ", ".join(repr_term(x) for x in t)
     return "%s(%s)" % (t[0], ", ".join(repr_term(x) for x in t[1:]))
 
 
